@@ -54,6 +54,8 @@ class Device:
         self.name = name
         self.regs = {f: ("poweron", label, f) for f in fields}
         self.written: set[str] = set()
+        #: fields written since the last op that may have clobbered the accelerator (whether or not it did)
+        self.known: set[str] = set()
         self.busy_until = 0
         self.last_writer = ("poweron",)
         self.launches = 0
@@ -171,6 +173,7 @@ class AccfgMachine(Machine):
                         fired = True
             # the call is a writer in the threading sense whether or not it changed anything
             d.last_writer = ("call", tag, k)
+            d.known.clear()
         if fired:
             self.fault("clobber")
             if any(d.busy_until > self.now for d in self.dev.values()):
@@ -196,8 +199,9 @@ def _setup(m: AccfgMachine, op, vals, core):
     for name, v in op.iter_params():
         d.regs[name] = m.get(vals, v)
         d.written.add(name)
+        d.known.add(name)
     if m.log_setups:
-        m.hist.append(("setup", d.name, tuple((n, m.get(vals, v)) for n, v in op.iter_params()), dict(d.regs)))
+        m.hist.append(("setup", d.name, tuple((n, m.get(vals, v)) for n, v in op.iter_params()), dict(d.regs), frozenset(d.known)))
     m.evid += 1
     d.last_writer = ("setup", m.evid)
     vals[op.out_state] = ("state", d.last_writer)
@@ -220,7 +224,7 @@ def _launch(m: AccfgMachine, op, vals, core):
     d.busy_until = m.now + lat
     lv = tuple((n, m.get(vals, v)) for n, v in op.iter_params())
     w = frozenset(d.written)
-    m.hist.append(("launch", d.name, lv, {f: d.regs[f] for f in sorted(d.regs)}, w))
+    m.hist.append(("launch", d.name, lv, {f: d.regs[f] for f in sorted(d.regs)}, w, frozenset(d.known)))
     vals[op.token] = ("token", d.name, d.launches)
     if core.loops:
         m.probe("launch-in-loop")
